@@ -5,16 +5,16 @@ Open Scope string_scope.
 
 (* any unpickler, any MAC, any blob, key and secret: every byte string handed to the unpickler is the
    payload part of the blob, and the blob's signature part verifies for the configured secret and this key *)
-Theorem C10_unpickle_only_verified : forall loads mac c key blob dg secret, signer c = Some (dg, secret) ->
-  forall p, In p (snd (decode loads mac c key (SBytes blob))) -> verified mac c key blob p.
+Theorem C10_unpickle_only_verified : forall loads mac cdec c key blob dg secret, signer c = Some (dg, secret) ->
+  forall p, In p (snd (decode loads mac cdec c key (SBytes blob))) -> verified mac c key blob p.
 Proof. exact unpickle_only_verified. Qed.
 Print Assumptions C10_unpickle_only_verified.
 
 (* a blob (not digit-only, i.e. digest label intact) whose signature does not verify reads as the
    default or raises the unsafe-data error: no value, no other exception *)
-Theorem C10_decode_outcomes : forall loads mac c key blob dg secret, signer c = Some (dg, secret) ->
+Theorem C10_decode_outcomes : forall loads mac cdec c key blob dg secret, signer c = Some (dg, secret) ->
   isdigit blob = false -> (forall p, ~ verified mac c key blob p) ->
-  fst (decode loads mac c key (SBytes blob)) = DDefault \/ fst (decode loads mac c key (SBytes blob)) = DUnsecure.
+  fst (decode loads mac cdec c key (SBytes blob)) = DDefault \/ fst (decode loads mac cdec c key (SBytes blob)) = DUnsecure.
 Proof. exact decode_outcomes. Qed.
 Print Assumptions C10_decode_outcomes.
 
